@@ -363,3 +363,31 @@ add(Contract(
                    ("it-range", f"_it0 <= {N}")],
                "dec": f"{N} - _it0"}},
 ))
+
+# ------------------------------------------------------------------ list marker helpers (C01: the digits handed to int() are ASCII digits; C08: marker/info)
+LM = "markdown_it.rules_block.list."
+PM = "(state.bMarks[startLine] + state.tShift[startLine])"
+add(Contract(
+    LM + "skipOrderedListMarker", params={"state": "obj:StateBlock", "startLine": "int"}, result="int", props=["C01", "C08"],
+    requires=wf() + [("line", "0 <= startLine and startLine < len(state.bMarks)")],
+    ensures=[
+        ("fail-or-after-marker", f"result == -1 or ({PM} + 2 <= result and result <= state.eMarks[startLine] and result <= {PM} + 10)", ["C01", "C08"]),
+        ("ascii-digits", f"implies(result >= 0, forall(k, {PM}, result - 1, state.src[k] >= '0' and state.src[k] <= '9'))", ["C01", "C08"]),
+        ("at-least-one-digit", f"implies(result >= 0, result - 1 > {PM})", ["C01"]),
+        ("delimiter", "implies(result >= 0, state.src[result - 1] == '.' or state.src[result - 1] == ')')", ["C08"]),
+        ("blank-after", "implies(result >= 0 and result < state.eMarks[startLine], state.src[result] == ' ' or state.src[result] == '\\t')", ["C08"]),
+    ],
+    loops={0: {"types": {"ch": "char", "ch_ord": "int"},
+               "inv": [("pos-lo", f"pos >= {PM} + 1"), ("pos-hi", "pos <= maximum and maximum == state.eMarks[startLine] and maximum <= len(state.src)"),
+                       ("start", f"start == {PM}"), ("digits", "forall(k, start, pos, state.src[k] >= '0' and state.src[k] <= '9')"), ("width", "pos - start <= 9")],
+               "dec": "maximum - pos"}},
+))
+add(Contract(
+    LM + "skipBulletListMarker", params={"state": "obj:StateBlock", "startLine": "int"}, result="int", props=["C01", "C08"],
+    requires=wf() + [("line", "0 <= startLine and startLine < len(state.bMarks)")],
+    ensures=[
+        ("fail-or-after-marker", f"result == -1 or result == {PM} + 1", ["C01", "C08"]),
+        ("marker", f"implies(result >= 0, state.src[{PM}] == '*' or state.src[{PM}] == '-' or state.src[{PM}] == '+')", ["C08"]),
+        ("blank-after", "implies(result >= 0 and result < state.eMarks[startLine], state.src[result] == ' ' or state.src[result] == '\\t')", ["C08"]),
+    ],
+))
